@@ -3,26 +3,52 @@ import EV.Model.HeaderCache
 import EV.Drv.Merkle
 
 /-! Driver for suite `headercache`:
-  NEW <variant> <depthHigher> <initLen> <hashes>   fresh state: source list, cache initialised to
-                                                   the first initLen hashes with the given depth_higher
-  XS <len> | XR | XF | BK <n> | AP <hashes>        the events of EV.HeaderCache
-Output after every event: `len level | truncations | ext`.   variant 0 = current code, 1 = pinned. -/
+  NEW <efl> <depthHigher> <initLen> <hashes>   fresh state: visible hashes, cache initialised to the
+                                               first initLen of them with the given depth_higher;
+                                               e,f,l ∈ {0,1} = Cfg.extFix, Cfg.retry, Cfg.lowerFirst
+  ST <cp> <height> | PF <i> | DL <i> | BB <n> | BE | AP <hashes>     the events of EV.HeaderCache
+Output after every line:
+  `<cache length> <cache level> | <truncations> | <len src> <pending or -> | <req> ; <req> ; …`
+  req = `E|L|V <start>,<count>,<?|!|hashes>` (waiting in _extend_to | for the leaf hashes | in _level_for)
+      | `A <branch> <root>` | `X <error>` | `R`. -/
 open EV EV.Wire EV.Merkle EV.HeaderCache
 
 namespace Drv.HeaderCacheD
 open Drv.MerkleD
 
 structure DSt where
-  fixed : Bool := true
+  cfg : Cfg := {}
   s : HeaderCache.St Node := {}
 
+def showRd (a n : Nat) : Rd Node → String
+  | .issued => s!"{a},{n},?"
+  | .short => s!"{a},{n},!"
+  | .got hs => s!"{a},{n},{showList hs}"
+
+def showReq (c : Cache Node) (r : Req Node) : String :=
+  match r.pc with
+  | .ext _ _ start rd => "E " ++ showRd start (r.length - start) rd
+  | .leaf rd => "L " ++ showRd (c.leafStart r.index) (min c.segLen (r.length - c.leafStart r.index)) rd
+  | .lvl _ _ rd => "V " ++ showRd (c.leafStart r.length) (min c.segLen (r.length - c.leafStart r.length)) rd
+  | .done (.answer br root) => s!"A {showList (br.map showElt)} {root}"
+  | .done (.error .dbError) => "X DBError"
+  | .done (.error (.py e)) => s!"X {showExc e}"
+  | .done .refused => "R"
+
 def showSt (s : HeaderCache.St Node) : String :=
-  let ext := match s.ext with
+  let pend := match s.pending with
     | none => "-"
-    | some e => s!"{e.target},{e.start}," ++ (match e.hashes with | none => "?" | some hs => showList hs)
-  s!"{s.c.length} {showList s.c.level} | {ext}"
+    | some n => toString n
+  s!"{s.c.length} {showList s.c.level} | {s.truncations} | {s.src.length} {pend} | " ++
+    joinWith " ; " (s.reqs.map (showReq s.c))
 
 def nodes (w : String) : List Node := if w = "-" then [] else (w.splitOn ",").filter (· ≠ "")
+
+def flag (cs : List Char) (i : Nat) : Bool := cs.getD i '1' == '1'
+
+def ev (d : DSt) (e : Ev Node) : DSt × String :=
+  let s := step H d.cfg d.s e
+  ({ d with s := s }, showSt s)
 
 def stepLine (d : DSt) (line : String) : DSt × String :=
   match words line with
@@ -31,20 +57,29 @@ def stepLine (d : DSt) (line : String) : DSt × String :=
     | some dh, some n =>
       let src := nodes hs
       let lv := match Merkle.level H (src.take n) dh with | .ok l => l | .error _ => []
-      let s : HeaderCache.St Node := { src := src, c := { length := n, level := lv, depthHigher := dh, initialized := true } }
-      ({ fixed := v = "0", s := s }, showSt s)
+      let s : HeaderCache.St Node :=
+        { src := src, ref := src, c := { length := n, level := lv, depthHigher := dh, initialized := true } }
+      let cs := v.toList
+      ({ cfg := { extFix := flag cs 0, retry := flag cs 1, lowerFirst := flag cs 2 }, s := s }, showSt s)
     | _, _ => (d, "bad-op")
-  | ["XS", l] =>
-    match l.toNat? with
-    | some l => let s := step H d.fixed d.s (.extStart l); ({ d with s := s }, showSt s)
+  | ["ST", cp, h] =>
+    match cp.toNat?, h.toNat? with
+    | some cp, some h => ev d (.start cp h)
+    | _, _ => (d, "bad-op")
+  | ["PF", i] =>
+    match i.toNat? with
+    | some i => ev d (.perform i)
     | none => (d, "bad-op")
-  | ["XR"] => let s := step H d.fixed d.s .extRead; ({ d with s := s }, showSt s)
-  | ["XF"] => let s := step H d.fixed d.s .extFinish; ({ d with s := s }, showSt s)
-  | ["BK", n] =>
+  | ["DL", i] =>
+    match i.toNat? with
+    | some i => ev d (.deliver i)
+    | none => (d, "bad-op")
+  | ["BB", n] =>
     match n.toNat? with
-    | some n => let s := step H d.fixed d.s (.backup n); ({ d with s := s }, showSt s)
+    | some n => ev d (.boBegin n)
     | none => (d, "bad-op")
-  | ["AP", hs] => let s := step H d.fixed d.s (.append (nodes hs)); ({ d with s := s }, showSt s)
+  | ["BE"] => ev d .boEnd
+  | ["AP", hs] => ev d (.append (nodes hs))
   | _ => (d, "bad-op")
 
 end Drv.HeaderCacheD
